@@ -449,6 +449,22 @@ pub fn near_complete(n: usize, kind: usize, a: usize, b: usize) -> (String, Abs)
         1 => (format!("complete minus {a}->{b}"), Abs::from_arcs(n, pairs.into_iter().filter(|&(u, v)| !(u == a && v == b)))),
         // transitive tournament with {a,b} reversed: still a tournament
         2 => (format!("transitive tournament with {a}->{b} reversed"), Abs::from_arcs(n, pairs.into_iter().filter(|&(u, v)| if (u, v) == (a, b) || (u, v) == (b, a) { u > v } else { u < v }))),
+        // degree-preserving swap on the transitive tournament: pairs {a,b} and {c,d} doubled, pairs
+        // {a,c} and {b,d} emptied (c, d the two smallest other vertices): size n(n-1)/2 and every
+        // vertex still incident to n-1 arcs, yet neither a tournament nor semicomplete nor oriented
+        4 => {
+            let mut others = (0..n).filter(|&x| x != a && x != b);
+            let (c, d) = (others.next().unwrap_or(0), others.next().unwrap_or(0));
+            let dbl = |u: usize, v: usize| (u.min(v), u.max(v)) == (a.min(b), a.max(b)) || (u.min(v), u.max(v)) == (c.min(d), c.max(d));
+            let emp = |u: usize, v: usize| (u.min(v), u.max(v)) == (a.min(c), a.max(c)) || (u.min(v), u.max(v)) == (b.min(d), b.max(d));
+            (format!("transitive tournament with {{{a},{b}}} and {{{c},{d}}} doubled, {{{a},{c}}} and {{{b},{d}}} emptied"), Abs::from_arcs(n, pairs.into_iter().filter(|&(u, v)| if emp(u, v) { false } else if dbl(u, v) { true } else { u < v })))
+        }
+        // symmetric circulant with connection set ±1..±(n-1)/4 rotated by a: n(n-1)/2 arcs for
+        // n = 4k+1, every vertex incident to n-1 arcs, fully symmetric
+        5 => {
+            let k = (n - 1) / 4;
+            (format!("symmetric circulant ±1..±{k}"), Abs::from_arcs(n, pairs.into_iter().filter(|&(u, v)| { let dlt = (v + n - u) % n; dlt <= k || n - dlt <= k })))
+        }
         // transitive tournament with pair {a,b} removed and pair {c,d} doubled: size n(n-1)/2, not a tournament, not semicomplete
         _ => {
             let (c, d) = if a == 0 && b == 1 { (n - 2, n - 1) } else { (0, 1) };
@@ -465,11 +481,17 @@ fn c12_family_space<R: Rep>(orders: &'static [usize], maxpar: usize) -> Space {
                 for kind in 0..4 {
                     cases.push((n, kind, a, b));
                 }
+                if n >= 4 {
+                    cases.push((n, 4, a, b));
+                }
+                if (a, b) == (0, 1) && n >= 5 && n % 4 == 1 {
+                    cases.push((n, 5, a, b));
+                }
             }
         }
     }
     let cases = Arc::new(cases);
-    let sp = Space::new("c12.family", vec![R::ID, orders.iter().map(|&x| x as u64).sum(), maxpar as u64], cases.len() as u64, format!("near-miss families at orders {orders:?} in {}: for EVERY unordered pair {{a,b}}: complete minus both arcs, complete minus one arc, transitive tournament with the pair reversed, transitive tournament with the pair removed and another doubled; worker threads 1..={maxpar}", R::NAME), move |idx, ctx| {
+    let sp = Space::new("c12.family", vec![R::ID, orders.iter().map(|&x| x as u64).sum(), maxpar as u64], cases.len() as u64, format!("near-miss families at orders {orders:?} in {}: for EVERY unordered pair {{a,b}}: complete minus both arcs, complete minus one arc, transitive tournament with the pair reversed, transitive tournament with the pair removed and another doubled, the degree-preserving swap (two pairs doubled, two emptied: size and every vertex's arc count as in a tournament), and the symmetric circulant for n = 4k+1; worker threads 1..={maxpar}", R::NAME), move |idx, ctx| {
         let (n, kind, a, b) = cases[idx as usize];
         let (name, abs) = near_complete(n, kind, a, b);
         let d: R = mk::<R>(&abs);
